@@ -16,6 +16,7 @@ CHECKS = {
             {"pkg": "wire", "run": "^TestC05KnownProbes$", "quick": 1, "thorough": 1},
             {"pkg": "core", "run": "^TestC05WebsocketChunks$", "quick": 300, "thorough": 10000, "shards_thorough": 4},
             {"pkg": "thriftw", "run": "^TestC05Thrift(Binary|Struct)$", "quick": 300, "thorough": 24000, "shards_thorough": 4},
+            {"pkg": "thriftw", "run": "^TestC05UntakenReplies$", "quick": 600, "thorough": 20000, "shards_thorough": 4},
         ],
     },
     "C01": {
@@ -25,6 +26,7 @@ CHECKS = {
             {"pkg": "core", "run": "^TestC01CrossTalk$", "quick": 400, "thorough": 12000, "shards_thorough": 8},
             {"pkg": "core", "run": "^TestC01SequenceNumbers$", "quick": 60, "thorough": 2000, "shards_thorough": 8},
             {"pkg": "core", "run": "^TestC01Controllers$", "quick": 400, "thorough": 20000, "shards_thorough": 4},
+            {"pkg": "core", "run": "^TestC01Binder$", "quick": 250, "thorough": 8000, "shards_thorough": 4},
             {"pkg": "thriftw", "run": "^TestC01ThriftSessions$", "quick": 200, "thorough": 6000, "shards_thorough": 4},
         ],
     },
@@ -33,6 +35,7 @@ CHECKS = {
         "assumptions": ["encoding/json, encoding/xml, gogo/protobuf and apache thrift define the supported value domain of their codecs (valid UTF-8, finite floats for JSON, XML-valid characters)"],
         "runs": [
             {"pkg": "pure", "run": "^TestC11(RoundTrip|Garbage)$", "quick": 4000, "thorough": 200000, "shards_thorough": 8},
+            {"pkg": "pure", "run": "^TestC11LengthFields$", "quick": 4000, "thorough": 200000, "shards_thorough": 8},
             {"pkg": "pure", "run": "^$", "fuzz": "^FuzzDecodeJSON$", "fuzztime": "60s", "fuzzworkers": 4, "only": "thorough", "rapid": False, "timeout_thorough": 900},
             {"pkg": "pure", "run": "^$", "fuzz": "^FuzzDecodeXML$", "fuzztime": "60s", "fuzzworkers": 4, "only": "thorough", "rapid": False, "timeout_thorough": 900},
             {"pkg": "pure", "run": "^$", "fuzz": "^FuzzDecodeForm$", "fuzztime": "60s", "fuzzworkers": 4, "only": "thorough", "rapid": False, "timeout_thorough": 900},
@@ -50,6 +53,8 @@ CHECKS = {
             {"pkg": "pure", "run": "^TestC12Registry$", "quick": 400, "thorough": 8000},
             {"pkg": "thriftw", "run": "^TestC12ThriftUnregistered$", "quick": 200, "thorough": 5000},
             {"pkg": "core", "run": "^TestC12ReplyPipe$", "quick": 600, "thorough": 30000, "shards_thorough": 4},
+            {"pkg": "pure", "run": "^TestC12LimitedFrames$", "quick": 300, "thorough": 12000, "shards_thorough": 8},
+            {"pkg": "core", "run": "^TestC12LimitedCalls$", "quick": 300, "thorough": 12000, "shards_thorough": 8},
             {"pkg": "pure", "run": "^TestC12CorruptionExhaustive$", "quick": 1, "thorough": 1, "only": "thorough", "rapid": False},
         ],
     },
@@ -64,6 +69,7 @@ CHECKS = {
             {"pkg": "core", "run": "^TestC02NestedCall$", "quick": 300, "thorough": 10000, "shards_thorough": 4},
             {"pkg": "core", "run": "^TestC02WriteQueue$", "quick": 200, "thorough": 8000, "shards_thorough": 4},
             {"pkg": "core", "run": "^TestC02SharedChannel$", "quick": 300, "thorough": 15000, "shards_thorough": 4},
+            {"pkg": "core", "run": "^TestC02SmallPool$", "quick": 300, "thorough": 15000, "shards_thorough": 4},
             {"pkg": "core", "run": "^TestC02HTTPReplies$", "quick": 400, "thorough": 20000, "shards_thorough": 4},
             {"pkg": "core", "run": "^TestC02WebsocketReplies$", "quick": 300, "thorough": 10000, "shards_thorough": 4},
             {"pkg": "core", "run": "^TestC02CutSweep$", "quick": 1, "thorough": 1, "rapid": False},
@@ -75,6 +81,8 @@ CHECKS = {
         "runs": [
             {"pkg": "core", "run": "^TestC03Dispatch$", "quick": 1500, "thorough": 60000, "shards_thorough": 8},
             {"pkg": "core", "run": "^TestC03HTTPTypes$", "quick": 500, "thorough": 20000, "shards_thorough": 4},
+            {"pkg": "core", "run": "^TestC03SmallPool$", "quick": 500, "thorough": 20000, "shards_thorough": 4},
+            {"pkg": "core", "run": "^TestC03SessionAge$", "quick": 50, "thorough": 1500, "shards_thorough": 8},
         ],
     },
     "C04": {
@@ -130,6 +138,7 @@ CHECKS = {
             {"pkg": "core", "run": "^TestC06Session$", "quick": 800, "thorough": 40000, "shards_thorough": 8},
             {"pkg": "core", "run": "^TestC06WebsocketControl$", "quick": 300, "thorough": 10000, "shards_thorough": 4},
             {"pkg": "core", "run": "^TestC06AcceptLoop$", "quick": 150, "thorough": 5000, "shards_thorough": 4},
+            {"pkg": "core", "run": "^TestC06SmallPool$", "quick": 200, "thorough": 8000, "shards_thorough": 4},
             {"pkg": "pure", "run": "^TestC06BodyCodecAlloc$", "quick": 1500, "thorough": 60000, "shards_thorough": 4},
             {"pkg": "wire", "run": "^$", "fuzz": "^FuzzUnpackRaw$", "fuzztime": "90s", "fuzzworkers": 4, "only": "thorough", "rapid": False, "timeout_thorough": 900},
             {"pkg": "wire", "run": "^$", "fuzz": "^FuzzUnpackJSON$", "fuzztime": "90s", "fuzzworkers": 4, "only": "thorough", "rapid": False, "timeout_thorough": 900},
@@ -147,6 +156,7 @@ CHECKS = {
             {"pkg": "core", "run": "^TestC07HookGate$", "quick": 400, "thorough": 10000, "shards_thorough": 4},
             {"pkg": "core", "run": "^TestC07DialHook$", "quick": 60, "thorough": 1500, "shards_thorough": 4},
             {"pkg": "core", "run": "^TestC07DialRetries$", "quick": 100, "thorough": 3000, "shards_thorough": 4},
+            {"pkg": "core", "run": "^TestC07SmallPool$", "quick": 200, "thorough": 8000, "shards_thorough": 4},
         ],
     },
     "C08": {
@@ -175,6 +185,7 @@ CHECKS = {
         "assumptions": ["the dialling-side check uses loopback TCP (Dial needs a real dialer)"],
         "runs": [
             {"pkg": "core", "run": "^TestC16Auth$", "quick": 800, "thorough": 40000, "shards_thorough": 8},
+            {"pkg": "core", "run": "^TestC16CutFrames$", "quick": 1500, "thorough": 40000, "shards_thorough": 8},
             {"pkg": "core", "run": "^TestC16Bearer$", "quick": 150, "thorough": 5000, "shards_thorough": 4},
         ],
     },
@@ -194,6 +205,7 @@ CHECKS = {
             {"pkg": "core", "run": "^TestC18Connections$", "quick": 300, "thorough": 10000, "shards_thorough": 8},
             {"pkg": "core", "run": "^TestC18Rate$", "quick": 100, "thorough": 3000, "shards_thorough": 8},
             {"pkg": "core", "run": "^TestC18HandlerLimits$", "quick": 60, "thorough": 2000, "shards_thorough": 8},
+            {"pkg": "core", "run": "^TestC18DialSide$", "quick": 100, "thorough": 3000, "shards_thorough": 8},
         ],
     },
     "C19": {
@@ -227,6 +239,7 @@ CHECKS = {
                         "with a small budget a short outage may or may not exhaust it: both outcomes are accepted and the oracle follows the observed one"],
         "runs": [
             {"pkg": "core", "run": "^TestC13Redial$", "quick": 150, "thorough": 4000, "shards_thorough": 8},
+            {"pkg": "core", "run": "^TestC13SmallPool$", "quick": 60, "thorough": 2000, "shards_thorough": 4},
         ],
     },
 }
